@@ -58,7 +58,10 @@ def run(m):
     d = tempfile.mkdtemp(prefix="gbsa-benign.")
     try:
         shutil.copytree("/repo/gbasis", os.path.join(d, "gbasis"))
-        if not apply(d, m): return m, None
+        if "patch" in m:
+            r = subprocess.run(["patch", "-s", "-p1", "-i", m["patch"]], cwd=d, capture_output=True, text=True)
+            if r.returncode: return m, None
+        elif not apply(d, m): return m, None
         out = {}
         for c in CLAIMED:
             r = subprocess.run([os.path.join(VERIF, "check"), c, "--repo", d, "--no-evidence"], capture_output=True, text=True)
@@ -73,6 +76,11 @@ if __name__ == "__main__":
     CLAIMED = [c["property_id"] for c in json.load(open(os.path.join(VERIF, "MANIFEST.json")))["checks"]]
     only = None
     if "--only" in sys.argv: only = set(sys.argv[sys.argv.index("--only") + 1].split(","))
+    pdir = os.path.join(VERIF, "seeded", "benign")
+    if os.path.isdir(pdir):
+        for fn in sorted(os.listdir(pdir)):
+            if fn.endswith(".diff"):
+                B.append(dict(id="agent-" + fn[:-5], patch=os.path.join(pdir, fn)))
     items = [m for m in B if not only or m["id"] in only]
     bad = 0
     with ThreadPoolExecutor(max_workers=int(os.environ.get("GBSA_JOBS", "8"))) as ex:
